@@ -433,29 +433,36 @@ Fixpoint try_values (m : nat -> list string -> list string -> mres) (keys caps :
 Definition next_sep (path : string) : nat :=
   match index_byte "/" path with Some k => k | None => slen path end.
 
-Fixpoint find_node (m : nat -> list string -> list string -> mres) (n : tree) (path : string)
+(** "for i, staticIndex := range n.staticIndices { if staticIndex == firstChar { ...; break } }":
+    the first child with that index byte is handed to [k], [dflt] if there is none *)
+Fixpoint pick_static {A} (first : ascii) (l : list (ascii * tree)) (k : tree -> A) (dflt : A) : A :=
+  match l with
+  | [] => dflt
+  | (d, child) :: r => if Ascii.eqb d first then k child else pick_static first r k dflt
+  end.
+
+(** [fx2], [fx5]: the candidate repairs fixes/C03-F2.diff (the catch-all child's
+    values are matched with the child's own keys and the captures including the
+    rest of the path) and fixes/C03-F5.diff (a dead end at a node returns the
+    captures it was given instead of nil).  [false false] is the tree as it is. *)
+Fixpoint find_node (fx2 fx5 : bool) (m : nat -> list string -> list string -> mres) (n : tree) (path : string)
          (caps : list string) {struct n} : fres * list call :=
   match path with
   | EmptyString =>
-    if is_nil (t_values n) then (FRes None [] true, []) else
+    if is_nil (t_values n) then (FRes None (if fx5 then caps else []) true, []) else
     match try_values m (t_keys n) caps (t_values n) with
     | (None, cs) => (FPanic, cs)
     | (Some (Some v), cs) => (FRes (Some (t_keys n, v)) caps false, cs)
-    | (Some None, cs) => (FRes None [] (t_bt n), cs)
+    | (Some None, cs) => (FRes None (if fx5 then caps else []) (t_bt n), cs)
     end
   | String first _ =>
     (* static child *)
     let st :=
-      (fix go (l : list (ascii * tree)) : fres * list call :=
-         match l with
-         | [] => (FRes None caps true, [])
-         | (d, child) :: r =>
-           if Ascii.eqb d first then
-             if prefix (t_path child) path
-             then find_node m child (sdrop (slen (t_path child)) path) caps
-             else (FRes None caps true, [])
-           else go r
-         end) (t_statics n) in
+      pick_static first (t_statics n)
+        (fun child => if prefix (t_path child) path
+                      then find_node fx2 fx5 m child (sdrop (slen (t_path child)) path) caps
+                      else (FRes None caps true, []))
+        (FRes None caps true, []) in
     match st with
     | (FPanic, cs) => (FPanic, cs)
     | (FRes (Some x) caps1 b, cs) => (FRes (Some x) caps1 b, cs)
@@ -468,7 +475,7 @@ Fixpoint find_node (m : nat -> list string -> list string -> mres) (n : tree) (p
         | Some w =>
           let k := next_sep path in
           if Nat.eqb k 0 then (None, []) else
-          match find_node m w (sdrop k path) (caps1 ++ [stake k path]) with
+          match find_node fx2 fx5 m w (sdrop k path) (caps1 ++ [stake k path]) with
           | (FPanic, cs) => (Some FPanic, cs)
           | (FRes (Some x) tmp b, cs) => (Some (FRes (Some x) tmp b), cs)
           | (FRes None _ false, cs) => (Some (FRes None [] false), cs)
@@ -482,7 +489,8 @@ Fixpoint find_node (m : nat -> list string -> list string -> mres) (n : tree) (p
         | None => (FRes None caps1 true, cs1 ++ cs2)
         | Some c =>
           (* the catch-all child's values are tried with THIS node's keys and the captures so far *)
-          match try_values m (t_keys n) caps1 (t_values c) with
+          match try_values m (if fx2 then t_keys c else t_keys n)
+                           (if fx2 then caps1 ++ [path] else caps1) (t_values c) with
           | (None, cs3) => (FPanic, cs1 ++ cs2 ++ cs3)
           | (Some (Some v), cs3) => (FRes (Some (t_keys c, v)) (caps1 ++ [path]) false, cs1 ++ cs2 ++ cs3)
           | (Some None, cs3) => (FRes None caps1 (t_bt n), cs1 ++ cs2 ++ cs3)
@@ -512,9 +520,9 @@ Inductive lookup :=
 | LNone
 | LFound (vid : nat) (params : list (string * string)).
 
-Definition tree_find (m : nat -> list string -> list string -> mres) (t : tree) (path : string)
+Definition tree_find (fx2 fx5 : bool) (m : nat -> list string -> list string -> mres) (t : tree) (path : string)
   : lookup * list call :=
-  match find_node m t path [] with
+  match find_node fx2 fx5 m t path [] with
   | (FPanic, cs) => (LPanic, cs)
   | (FRes None _ _, cs) => (LNone, cs)
   | (FRes (Some (keys, v)) params _, cs) =>
@@ -612,8 +620,8 @@ Definition execute (sl : slash) (q : request) (caps : list (string * string)) : 
   | _ => (map (fun kv => (fst kv, unescape (snd kv) sl)) caps, false)
   end.
 
-Definition serve (eng : engine) (es : list centry) (t : tree) (q : request) : outcome * list call :=
-  match tree_find (matcher_of eng es q) t (lookup_path q) with
+Definition serve (fx2 fx5 : bool) (eng : engine) (es : list centry) (t : tree) (q : request) : outcome * list call :=
+  match tree_find fx2 fx5 (matcher_of eng es q) t (lookup_path q) with
   | (LPanic, cs) => (OPanic, cs)
   | (LNone, cs) => (ONone, cs)
   | (LFound vid params, cs) =>
@@ -623,4 +631,19 @@ Definition serve (eng : engine) (es : list centry) (t : tree) (q : request) : ou
       let '(caps, rej) := execute (cm_slash (ce_m e)) q (map_of params) in
       (ORule (ce_rule e) caps rej, cs)
     end
+  end.
+
+(* ------------------------------------------------------------------ equality of observations *)
+
+Definition strs_eqb := list_eqb String.eqb.
+Definition call_eqb (a b : call) : bool :=
+  Nat.eqb (k_vid a) (k_vid b) && strs_eqb (k_keys a) (k_keys b) && strs_eqb (k_vals a) (k_vals b) &&
+  mres_eqb (k_res a) (k_res b).
+Definition kv_eqb (a b : string * string) : bool := String.eqb (fst a) (fst b) && String.eqb (snd a) (snd b).
+Definition caps_eqb := list_eqb kv_eqb.
+Definition outcome_eqb (a b : outcome) : bool :=
+  match a, b with
+  | OPanic, OPanic | ONone, ONone => true
+  | ORule r c x, ORule r' c' x' => Nat.eqb r r' && caps_eqb c c' && Bool.eqb x x'
+  | _, _ => false
   end.
